@@ -4,6 +4,7 @@ package lifecycle
 
 import (
 	"context"
+	"errors"
 	"fmt"
 	"io/fs"
 	"testing/fstest"
@@ -13,6 +14,7 @@ import (
 	experimentalsys "github.com/tetratelabs/wazero/experimental/sys"
 	"github.com/tetratelabs/wazero/experimental/sysfs"
 	"github.com/tetratelabs/wazero/imports/wasi_snapshot_preview1"
+	"github.com/tetratelabs/wazero/sys"
 
 	"verifharness/sim"
 	"verifharness/tape"
@@ -233,6 +235,11 @@ func resourcesRelease(t *tape.Tape, cfg sim.Config) (res sim.Result) {
 		cerr = rt.Close(ctx)
 	case 3:
 		_, cerr = g.Call(ctx, "proc_exit", 4)
+		var ee *sys.ExitError
+		if !errors.As(cerr, &ee) || ee.ExitCode() != 4 {
+			res.Fail("wrong-error", "proc_exit(4) with %d files open (files whose Close reports an error: %v) returned %v, expected the exit error with code 4", len(st.opened), keys(st.failing), cerr)
+			return
+		}
 	}
 	res.Logf("opened %v (failing close: %v), way %d, close error: %v", order, len(st.failing), way, cerr != nil)
 	// closing again must not close anything twice
